@@ -163,9 +163,27 @@ partial def pVerdicts (s : String) : Option (List (Bytes × Bool)) :=
 
 def strBytes (s : String) : Bytes := s.toUTF8.toList
 
+mutual
+  /-- viper.AllSettings (what ViperBinder.Get answers for the EMPTY path): rebuilt from the leaf keys, so nil leaves and,
+      recursively, empty maps vanish; lists are leaves -/
+  def pruneAll : Val → Option Val
+    | .null => none
+    | .map m =>
+      match pruneAllM m with
+      | [] => none
+      | m' => some (.map m')
+    | v => some v
+  def pruneAllM : List (Bytes × Val) → List (Bytes × Val)
+    | [] => []
+    | (k, v) :: rest =>
+      match pruneAll v with
+      | none => pruneAllM rest
+      | some v' => (k, v') :: pruneAllM rest
+end
+
 def mkCfg (v : Val) : Cfg :=
   match v with
-  | .map m => fun k => (alookup k m).getD .null
+  | .map m => fun k => if k.isEmpty then .map (pruneAllM m) else (alookup k m).getD .null
   | _ => fun _ => .null
 
 def mkEval (t : List (Bytes × Except Err Val)) : Bytes → Except Err Val :=
